@@ -1,4 +1,5 @@
 import Amqp.Reasm
+import Amqp.KeepTill
 import Driver.Frame
 
 namespace Driver.Reasm
@@ -29,6 +30,10 @@ def step (st : Option Inc) (ws : List String) : Option (Option Inc × String) :=
                        payload := (← Driver.Frame.unhex payload) }
     let (s, o) := Amqp.Reasm.stepR st f (← bool01 resume)
     pure (s, showOut o)
+  | "keep" :: n :: o :: chunks => do
+    let cs ← chunks.mapM Driver.Frame.unhex
+    let kept := Amqp.KeepTill.keepTill cs (← n.toNat?) (← o.toNat?)
+    pure (st, " ".intercalate (kept.map Driver.Frame.hex))
   | _ => none
 
 end Driver.Reasm
